@@ -349,8 +349,9 @@ def run(ck, facts):
         if n.get("k") == "match" and (n.get("sadt") or "").endswith("ast::types::CustomType"):
             for arm in n["arms"]:
                 v = arm["pat"].get("v")
-                reads_ref = any(x.get("k") == "field" and x.get("n") == "reference" for x in C.walk(arm["b"]))
-                pushes_err = any((C.callee(x) or "").endswith("ErrorStore::push") for x in C.calls_in(arm["b"]))
+                arm_nodes = list(C.walk_inl(core, arm["b"], 1, exclude=[lsp["path"]], max_nodes=1500))    # the arm, or the per-kind helper it delegates to
+                reads_ref = any(x.get("k") == "field" and x.get("n") == "reference" for x in arm_nodes)
+                pushes_err = any((C.callee(x) or "").endswith("ErrorStore::push") for x in arm_nodes if x.get("k") in ("call", "mcall"))
                 arms_seen[v] = (reads_ref, pushes_err, arm.get("ln"))
     if set(arms_seen) < {"Struct", "Opaque", "Enum"}:
         ck.bad("R6", "lower_self_param/arms", "cannot find the Struct/Opaque/Enum arms of lower_self_param: %s" % sorted(arms_seen), C.loc(lsp))
